@@ -585,6 +585,10 @@ func (ep *episode) exec(o opSpec) []any {
 		items := make([]Item[int], len(o.Items))
 		for i, it := range o.Items {
 			items[i] = Item[int]{ID: jobID(it.Job), Data: it.Job, Priority: it.Prio}
+			if ep.prog.Cfg.IdGen && ep.prog.Cfg.WK == "plain" {
+				// (batches whose results are read back are attributed by ID; a plain worker's batch leaves the IDs to the generator)
+				items[i].ID = ""
+			}
 
 		}
 		b := hq.addAll(items)
